@@ -23,14 +23,14 @@ const QUICK_TYPES: usize = 40;
 const THOROUGH_TYPES: usize = 150;
 
 fn fam_dir(tag: u64) -> PathBuf {
-    PathBuf::from(crate::engine::VERIF)
+    PathBuf::from(crate::engine::verif_root())
         .join("work")
         .join("c17")
         .join(format!("fam-{:016x}", tag))
 }
 
 fn target_dir() -> PathBuf {
-    PathBuf::from(crate::engine::VERIF).join("work").join("target-c17")
+    PathBuf::from(crate::engine::verif_root()).join("work").join("target-c17")
 }
 
 /// write and build the family crate; returns the path of its executable
@@ -253,7 +253,7 @@ impl Prop for C17 {
             Ok(x) => x,
             Err(e) => return Verdict::fail("infrastructure/build", e),
         };
-        let work = PathBuf::from(crate::engine::VERIF).join("work");
+        let work = PathBuf::from(crate::engine::verif_root()).join("work");
         match run_cases(&exe, &work, "replay", &[(ty, argv.clone())]) {
             Ok(m) if m.is_empty() => Verdict::Pass,
             Ok(m) => Verdict::fail(
